@@ -93,6 +93,8 @@ def elaborate(mods, top=None, blackboxes=()):
             by_name[m.name] = m
         d.ob('module name %s is a legal, non-reserved identifier' % m.name, legal_identifier(m.name) and m.name not in RESERVED,
              {'module': m.name})
+    if not mods:
+        raise VlogSyntaxError('the text contains no module')
     if top is None:
         top = mods[0].name
     d.top = top
